@@ -646,6 +646,10 @@ class BaseRequest(MutableMapping[str | RequestKey[Any], Any], HeadersMixin):
 
             if start is None and end is not None:
                 # end with no start is to return tail of content
+                if end == 0:
+                    # The last 0 bytes: -0 would mean "from offset 0 on",
+                    # so return an explicitly empty slice instead.
+                    return slice(0, 0, 1)
                 start = -end
                 end = None
 
